@@ -218,12 +218,12 @@ def sync_fault_points(rng, n_scn):
         finally:
             shutil.rmtree(root, ignore_errors=True)
         for k in sorted(scn["targets"]):
-            if clean_after.get(L.file_of(k)) == before.get(L.file_of(k)):
+            if clean_after.get(L.file_of(k, scn)) == before.get(L.file_of(k, scn)):
                 continue
             root = tempfile.mkdtemp(prefix="doctrans-verif-c20.")
             try:
                 proj = L.build_project(scn, root)
-                fo = L.Fault(L.file_of(k), None)
+                fo = L.Fault(L.file_of(k, scn), None)
                 L.run_api(scn, proj["paths"], L.Recorder(), fo)
                 oplogs[k] = list(fo.ops)
             finally:
@@ -239,7 +239,7 @@ def sync_fault_points(rng, n_scn):
                 b4 = L.snapshot(root)
                 desc = None
                 if kind == "io":
-                    fo = L.Fault(L.file_of(k), pt[0], pt[1])
+                    fo = L.Fault(L.file_of(k, scn), pt[0], pt[1])
                     run = L.run_api(scn, proj["paths"], L.Recorder(), fo)
                     fired = fo.fired
                     desc = "%s %s" % (fo.fired_op, "k=%d" % pt[1] if fo.fired_op and fo.fired_op[0] == "write" else "")
